@@ -321,7 +321,7 @@ def grid_files(draw):
          "nrows": nrows, "ncols": ncols}
     _with_fields(draw, P)
     subs = [P]
-    n_extra = draw(st.integers(0, 3))
+    n_extra = draw(st.sampled_from([0, 1, 2, 3, 3]))
 
     def child(of, name, rlo, rhi, k):
         # occupies whole cells [r0, r0+dr] x [c0, c0+dc] of `of`, spacing of/k
@@ -363,7 +363,8 @@ def grid_files(draw):
                     # (rows in whole multiples of m1 so that the northern limit has three decimals, as for the parent)
                     "nrows": (draw(st.integers(3, 10)) if m1 == 1 else m1 * draw(st.integers(1, max(1, 10 // m1))) + 1),
                     "ncols": draw(st.integers(3, 10))}))
-    if len(subs) > 1 and draw(st.integers(0, 3)) == 0:
+    if len(subs) > 1 and draw(st.integers(0, 1)) == 0:
+        # any order of the records in the file (children before parents, the finest in the middle, ...)
         subs = list(draw(st.permutations(subs)))
     nq = draw(st.integers(8, 30))
     queries = []
@@ -407,7 +408,7 @@ def _classes(case):
 
 SUBCHECKS = [
     SubCheck("files_and_queries", check_file, strategy=grid_files(), nontrivial=_nt, classes=_classes,
-             quick=640, thorough=24000, shards_quick=8, shards_thorough=16,
+             quick=1200, thorough=24000, shards_quick=12, shards_thorough=16,
              fresh=(8, 64, 3), rule="per generated file: metadata reads back exactly; per query: selected (finest) sub-grid, bilinear = exact 4-node "
                   "blend, node values, linear / bi-quadratic reproduction, None + ValueError outside, ntv2_2d sign convention"),
 ]
